@@ -111,6 +111,7 @@ PROPERTIES = {
         "parts": [
             part("C13.store", shards={"quick": 12, "thorough": 16}, floor=500),
             part("C13.prune", shards={"quick": 8, "thorough": 16}, floor=500),
+            part("C13.sim", shards={"quick": 16, "thorough": 16}, floor=50, timeout={"quick": 900, "thorough": 14400}),
             part("C13.live", race=True, shards={"quick": 2, "thorough": 16}, floor=1, timeout={"quick": 900, "thorough": 7200}),
         ],
     },
